@@ -158,7 +158,7 @@ func (runInfo *runInfoStruct) invokeArrayExpr(expr *ast.ArrayExpr) {
 			return
 		}
 
-		runInfo.rv, runInfo.err = convertReflectValueToType(runInfo.rv, valueType)
+		runInfo.rv, runInfo.err = runInfo.convertValue(runInfo.rv, valueType)
 		if runInfo.err != nil {
 			runInfo.err = newStringError(expr, "cannot use type "+runInfo.rv.Type().String()+" as type "+valueType.String()+" as slice value")
 			runInfo.rv = nilValue
@@ -227,7 +227,7 @@ func (runInfo *runInfoStruct) invokeMapExpr(expr *ast.MapExpr) {
 		if runInfo.err != nil {
 			return
 		}
-		key, runInfo.err = convertReflectValueToType(runInfo.rv, keyType)
+		key, runInfo.err = runInfo.convertValue(runInfo.rv, keyType)
 		if runInfo.err != nil {
 			runInfo.err = newStringError(expr, "cannot use type "+key.Type().String()+" as type "+keyType.String()+" as map key")
 			runInfo.rv = nilValue
@@ -244,7 +244,7 @@ func (runInfo *runInfoStruct) invokeMapExpr(expr *ast.MapExpr) {
 		if runInfo.err != nil {
 			return
 		}
-		runInfo.rv, runInfo.err = convertReflectValueToType(runInfo.rv, valueType)
+		runInfo.rv, runInfo.err = runInfo.convertValue(runInfo.rv, valueType)
 		if runInfo.err != nil {
 			runInfo.err = newStringError(expr, "cannot use type "+runInfo.rv.Type().String()+" as type "+valueType.String()+" as map value")
 			runInfo.rv = nilValue
@@ -656,7 +656,7 @@ func (runInfo *runInfoStruct) invokeImportExpr(expr *ast.ImportExpr) {
 	if runInfo.err != nil {
 		return
 	}
-	runInfo.rv, runInfo.err = convertReflectValueToType(runInfo.rv, stringType)
+	runInfo.rv, runInfo.err = runInfo.convertValue(runInfo.rv, stringType)
 	if runInfo.err != nil {
 		runInfo.rv = nilValue
 		return
@@ -873,7 +873,7 @@ func (runInfo *runInfoStruct) invokeChanExpr(expr *ast.ChanExpr) {
 	// chan lhs <- rhs is send
 
 	runInfo.rv = nilValue
-	rhs, runInfo.err = convertReflectValueToType(rhs, lhs.Type().Elem())
+	rhs, runInfo.err = runInfo.convertValue(rhs, lhs.Type().Elem())
 	if runInfo.err != nil {
 		runInfo.err = newStringError(expr, "cannot use type "+rhs.Type().String()+" as type "+lhs.Type().Elem().String()+" to send to chan")
 		return
